@@ -426,6 +426,28 @@ def rule_py_pure(ctx, py, R="C08.PY-PURE"):
     ctx.floor(R, 4)
 
 
+def rule_driver(ctx, py):
+    """C08.DRIVER -- `engine.run(ms)` returns after a wall-clock slice: where a slice ends depends on the machine and its load.
+    Nothing that changes what is recorded may therefore hang on the slice boundaries: inside the loop that drives run(), the
+    engine is only asked for its progress / completion.  An explicit sample() (or iterate, or a new set-up) there puts the
+    wall clock into the trajectory."""
+    R = "C08.DRIVER"
+    f = py.fn("simulate.simulate_script")
+    n = 0
+    for lp in [x for x in ast.walk(f) if isinstance(x, (ast.While, ast.For))]:
+        calls = [c for c in pyfe.calls_in(lp) if isinstance(c.func, ast.Attribute) and isinstance(c.func.value, ast.Name) and
+                 c.func.value.id == "engine"]
+        if not any(c.func.attr == "run" for c in calls):
+            continue
+        n += 1
+        bad = [c for c in calls if c.func.attr not in ("run", "get_progress", "is_complete", "get_t", "get_nsamples")]
+        ctx.check(not bad, R, bad[0] if bad else lp, f._qual, "engine calls inside the run() loop: %s" % sorted({c.func.attr for c in calls}),
+                  "progress / completion queries only", "`engine.%s()` is called once per wall-clock slice of run(): when it happens, "
+                  "and so what the trajectory holds, depends on how fast the machine ran" % (bad[0].func.attr if bad else ""))
+    ctx.need(n >= 1, R, "simulate_script: the loop that drives engine.run() is not found")
+    ctx.floor(R, 1)
+
+
 def rule_euler(ctx, tu, eff):
     R = "C08.EULER"
     for cname in ("Euler3D", "EulerGraph"):
@@ -454,6 +476,7 @@ def run(ctx):
     rule_src(ctx, tu)
     rule_rng(ctx, tu, eff)
     rule_globals(ctx, tu, ctx.py)
+    rule_driver(ctx, ctx.py)
     # shared clause: the mode x engine decision table (C14.DISPATCH) -- the deterministic engine's default processing is the
     # unseeded pass-through, so its trajectory cannot depend on the seed
     from ..core import borrow
